@@ -72,6 +72,29 @@ def eval_closure(prog: Program) -> Set[FuncInfo]:
     return fs | extra
 
 
+_reach_cache: Dict[Tuple[int, str], Set[str]] = {}
+
+
+def _reset_runs_for(prog: Program, c: ClassInfo, g: FuncInfo) -> bool:
+    """Does the reset function g actually run for an instance of the concrete class c? It has to be what the class resolves the method
+    name to, or be reached from that through self / super() calls - a definition further up the MRO that a nearer override shadows
+    (without calling super()) never runs."""
+    from ..callgraph import self_closure
+
+    key = (id(prog), c.qual)
+    if key not in _reach_cache:
+        names = {m for q in prog.mro(c.qual) if q in prog.classes for m in prog.classes[q].methods}
+        reach: Set[str] = set()
+        for nm in names:
+            if nm in ("evaluate", "_evaluate__") or nm.startswith("_reset") or nm.endswith("_reset_") or "reset" in nm:
+                m = prog.lookup(c.qual, nm)
+                if m is not None:
+                    fs, _ = self_closure(prog, c.qual, m, False)
+                    reach |= {f.qual for f in fs}
+        _reach_cache[key] = reach
+    return g.qual in _reach_cache[key]
+
+
 def carry1(prog: Program) -> RuleResult:
     r = RuleResult("CARRY-1", "state accumulated on expression nodes during evaluation is reset by evaluation", floor=2)
     se = prog.cls(SE)
@@ -116,7 +139,7 @@ def carry1(prog: Program) -> RuleResult:
         uncovered = []
         for fa, _, _ in sites_:
             for c in concrete:
-                if fa.cls.qual in prog.mro(c.qual) and not any(g.cls.qual in prog.mro(c.qual) for g, _ in rs):
+                if fa.cls.qual in prog.mro(c.qual) and not any(_reset_runs_for(prog, c, g) for g, _ in rs):
                     uncovered.append(c.name)
         if uncovered:
             rs = []
@@ -127,6 +150,128 @@ def carry1(prog: Program) -> RuleResult:
             f"evaluation recorded decides what the next (or an interleaved) evaluation of the same expression yields",
         )
     r._acc, r._resets = acc, resets
+    return r
+
+
+def carry_abandon(prog: Program) -> RuleResult:
+    """A marker (boolean field) that a generator raises before a yield and lowers after it stays raised when the consumer abandons the
+    iterator at that yield. Such a marker must also be lowered when the next evaluation starts (in the reset hook that runs for the
+    class). Transient *collections* filled before a yield and cleared after it (the selectors' _conclusion_) have the same shape; I could
+    not produce a wrong result from one in 60 abandoned evaluations, so they are not part of the rule (DESIGN.md, limits)."""
+    r = RuleResult("CARRY-ABANDON", "markers raised around a yield are also lowered when an evaluation starts", floor=1)
+    se = prog.cls(SE)
+    from .c01 import concrete_classes
+
+    concrete = concrete_classes(prog)
+    ev = [f for f in eval_closure(prog) if f.cls is not None and prog.is_subclass(f.cls.qual, se.qual) and f.is_generator]
+    seen = set()
+    for f in sorted(ev, key=lambda x: x.qual):
+        cfg = CFG(f.node)
+        yields = [n for n in cfg.nodes if n.stmt is not None and n.kind == "stmt" and any(isinstance(x, (ast.Yield, ast.YieldFrom)) for x in ast.walk(n.stmt))]
+        if not yields:
+            continue
+        raises_, lowers = {}, {}
+        for n in cfg.nodes:
+            st = n.stmt
+            if n.kind != "stmt" or st is None:
+                continue
+            if isinstance(st, ast.Assign) and len(st.targets) == 1 and is_self_attr(st.targets[0]) and isinstance(st.value, ast.Constant) and isinstance(st.value.value, bool):
+                (raises_ if st.value.value else lowers).setdefault(st.targets[0].attr, []).append(n)
+        for fl in sorted(set(raises_) & set(lowers)):
+            # raise -> yield -> lower on some path
+            live = False
+            for a in raises_[fl]:
+                ra = cfg.reachable(a.id)
+                for y in yields:
+                    if y.id in ra and any(l.id in cfg.reachable(y.id) for l in lowers[fl]):
+                        live = True
+            if not live:
+                continue
+            key = f"{f.short}#{fl}"
+            if key in seen:
+                continue
+            seen.add(key)
+            uncovered = []
+            for c in concrete:
+                if f.cls.qual not in prog.mro(c.qual) or prog.lookup(c.qual, f.name) is not f:
+                    continue
+                hook = prog.lookup(c.qual, "_reset_evaluation_state_")
+                ok = False
+                if hook is not None:
+                    from ..callgraph import self_closure
+
+                    for g in self_closure(prog, c.qual, hook, False)[0]:
+                        for x in walk_local(g.node):
+                            if isinstance(x, ast.Assign) and any(is_self_attr(t, fl) for t in x.targets) and isinstance(x.value, ast.Constant) and x.value.value in (False, None):
+                                ok = True
+                            if isinstance(x, ast.Call) and isinstance(x.func, ast.Attribute) and x.func.attr == "clear" and is_self_attr(x.func.value, fl):
+                                ok = True
+                if not ok:
+                    uncovered.append(c.name)
+            r.check(not uncovered, key, site(f, raises_[fl][0].stmt), f"self.{fl} raised before a yield, lowered after it",
+                    "also lowered by the reset hook that runs when an evaluation starts",
+                    f"{f.short} raises self.{fl} before a yield and lowers it afterwards; an iterator abandoned at that yield leaves it raised, and nothing lowers it when the next "
+                    f"evaluation of {sorted(set(uncovered))} starts: the next evaluation begins with the state of the abandoned one")
+    return r
+
+
+UPWARD = {"_parent_", "_root_", "_eval_parent_", "_conditions_root_"}
+
+
+def carry_memo_up(prog: Program) -> RuleResult:
+    """An expression can be embedded in a second query later ('queries that share sub-expressions'): everything *above* it changes, its
+    own sub-tree does not. A fact an expression memoises for its lifetime (cached_property / lru_cache) and that evaluation consults must
+    therefore not be computed from what lies above the node (parent, root, conditions root)."""
+    from ..callgraph import self_closure
+
+    r = RuleResult("CARRY-MEMO-UP", "no memoised fact consulted by evaluation is computed from what lies above the node", floor=3)
+    se = prog.cls(SE)
+    ev = eval_closure(prog)
+    read_names = {x.attr for f in ev for x in walk_local(f.node) if isinstance(x, ast.Attribute) and isinstance(x.ctx, ast.Load)}
+    called = {call_name(c) for f in ev for c in calls_in(f.node)}
+    seen = set()
+    for c in sorted(prog.subclasses(se.qual), key=lambda x: x.qual):
+        for name, m in sorted(c.methods.items()):
+            if not (m.is_cached_property or m.is_lru_cache) or m.is_setter or m.qual in seen:
+                continue
+            seen.add(m.qual)
+            consulted = name in read_names if m.is_cached_property else name in called
+            if not consulted:
+                continue
+            fs, _ = self_closure(prog, c.qual, m, True)
+            up = sorted({x.attr for g in fs for x in walk_local(g.node) if isinstance(x, ast.Attribute) and x.attr in UPWARD and isinstance(x.ctx, ast.Load)}
+                        | {"_node_." + x.attr for g in fs for x in walk_local(g.node) if isinstance(x, ast.Attribute) and x.attr in ("parent", "root") and isinstance(x.value, ast.Attribute) and x.value.attr == "_node_"})
+            r.check(not up, f"{m.short}#memoised-from-above", site(m), f"{'cached_property' if m.is_cached_property else 'lru_cache'}; reads {up or 'its own sub-tree only'}",
+                    "computed from the node's own sub-tree only",
+                    f"{m.short} is memoised for the lifetime of the node but computed from {up}: once the expression is used in a second query (where it has another parent / root) "
+                    f"evaluation still sees the answer for the first one (flag = x.flag; entity(x, flag) then entity(x, flag == False) loses the rows with a falsy flag)")
+    return r
+
+
+def shared_tree(prog: Program) -> RuleResult:
+    """Queries may share sub-expressions. Upward navigation (_parent_, _root_, the conditions root) reads one structural parent per node,
+    so attaching an expression that already has a parent to a second operator must copy it (or the structure must hold several parents)."""
+    r = RuleResult("SHARED-TREE", "an expression used in a second query keeps its place in the first one", floor=1)
+    se = prog.cls(SE)
+    uc = se.methods.get("_update_children_")
+    if uc is None:
+        raise AnalysisError("SHARED-TREE: SymbolicExpression._update_children_ vanished")
+    cfg = CFG(uc.node)
+    attach = [n for n in cfg.nodes if isinstance(n.stmt, ast.Assign) and any(isinstance(t, ast.Attribute) and t.attr == "parent" and isinstance(t.value, ast.Attribute) and t.value.attr == "_node_" for t in n.stmt.targets)]
+    if not attach:
+        raise AnalysisError("SHARED-TREE: _update_children_ no longer attaches the children's graph nodes")
+    single_parent = any(isinstance(x, ast.Attribute) and x.attr == "parent" and isinstance(x.value, ast.Attribute) and x.value.attr == "_node_"
+                        for g in se.methods.values() if g.name == "_parent_" and not g.is_setter for x in walk_local(g.node))
+    for a in attach:
+        guarded = False
+        for t in cfg.nodes:
+            if t.kind == "test" and isinstance(t.stmt, ast.If) and cfg.dominates(t.id, a.id) and any(isinstance(x, ast.Attribute) and x.attr in ("parent", "_parent_", "parents") for x in ast.walk(t.stmt.test)):
+                guarded = True
+        copies = any(call_name(c) in ("copy", "deepcopy", "__copy__", "_copy_") for c in calls_in(uc.node))
+        r.check(guarded or copies or not single_parent, "SymbolicExpression._parent_#single-parent", site(uc, a.stmt), src(a.stmt),
+                "an operand that already has a parent is copied (or kept under both parents)",
+                "an operand that already belongs to another expression is re-parented in place, and upward navigation knows one parent only: the first expression no longer finds the "
+                "operand in its place (a sub-expression used in a second query before the first one is evaluated is no longer treated as a condition there)")
     return r
 
 
@@ -335,4 +480,4 @@ def reset_with_evaluation(prog: Program) -> RuleResult:
 
 def run(prog: Program, tier: str) -> List[RuleResult]:
     c1 = carry1(prog)
-    return [c1, carry2(prog), ep_handshake(prog), domain_cache(prog), reset_with_evaluation(prog), carry_shared(prog, c1)]
+    return [c1, carry2(prog), ep_handshake(prog), domain_cache(prog), reset_with_evaluation(prog), carry_shared(prog, c1), carry_abandon(prog), carry_memo_up(prog), shared_tree(prog)]
